@@ -65,6 +65,7 @@ RULE = ("layouts as in C13 (up to 6 volumes x 1..9 slices); batch 1..8; world 1.
 PENDING_FINDINGS: list[str] = []
 _RECON_CASES: dict = {}      # protocol line -> replayable description (well-formed streams), for `search`
 _PREDICT_CASES: dict = {}
+_PREV_STREAM: dict = {}       # the stream the engine processed just before (call history of the shared engine)
 
 logging.getLogger("direct").setLevel(logging.ERROR)
 
@@ -352,7 +353,8 @@ def correspondence(ctx: Ctx):
         ln = line("recon2", flat_table, *groups)
         if kind in ("well-formed", "volume-order"):
             _RECON_CASES[ln] = {"op": "recon-stream", "table": [list(x) for x in table], "losses": losses,
-                                "batches": [[list(x) for x in b] for b in batches]}
+                                "batches": [[list(x) for x in b] for b in batches], "before": _PREV_STREAM.get("s")}
+        _PREV_STREAM["s"] = {"table": [list(x) for x in table], "batches": [[list(x) for x in b] for b in batches]}
         yield {"line": ln, "impl": _catch(impl),
                "nontrivial": (nv >= 2 and multi) or kind != "well-formed", "bucket": f"recon/{kind}/slice_no={sno_policy}"}
 
@@ -787,6 +789,11 @@ def check_recon_stream(c):
             order.append(f)
         want[f][0].extend(o)
         want[f][1].extend(t)
+    if c.get("before"):                # what the same engine processed just before (possibly a stream that died mid-volume)
+        try:
+            run_recon([tuple(x) for x in c["before"]["table"]], [tuple(b) for b in c["before"]["batches"]])
+        except Exception:  # noqa: BLE001
+            pass
     try:
         ys, err = run_recon(table, batches, losses=c.get("losses", False))
     except Exception as e:  # noqa: BLE001
